@@ -133,3 +133,32 @@ Theorem C09_source_gen_policy_call_preconditions :
                Forall (fun x => 0 < x)%Q pi /\ (sumq pi == 1)%Q /\ length pi = length q /\
                Forall (fun x => -1 <= x <= 1)%Q q.
 Proof. exact gen_policy_call_preconditions. Qed.
+
+(* ---- the search loop regenerated from the source (proofs/MctsGenSearch.v; see props/C08.v for the end-to-end equality) ---- *)
+From TV Require Import proofs.MctsGenSearch.
+(* C09 transported: select_root_move on an expanded root returns the sampled child's move, which is legal *)
+Theorem C09_source_select_root_move_legal :
+  forall F f_sqrt f_mul f_div_int (solve : list Q -> list Q -> F -> res (list Q)) (C : F) cutoff,
+  (forall pi q lam, exists r, solve pi q lam = Ok r) ->
+  forall t ks c k rest evs nz,
+  Good cutoff t -> n_kids t = Some ks -> nth_error ks c = Some k ->
+  MctsGen.select_root_move ostate o_multinomial F f_sqrt f_mul f_div_int solve C (py_of t) []
+    (mkOst (Z.of_nat c :: rest) evs nz) = Ok (n_move k, mkOst rest evs nz) /\
+  exists m, n_move k = Some m /\ In m (table (size (n_pos t))) /\ Tak.move (n_pos t) m = Some (n_pos k).
+Proof. exact gen_select_root_move_legal. Qed.
+(* ... and get_move(p) with a budget of limit > 0 simulations returns a legal move of p whenever the searched root
+   has children *)
+Theorem C09_source_get_move_legal :
+  forall F f_sqrt f_mul f_div_int (solve : list Q -> list Q -> F -> res (list Q)) (C : F) cutoff mix alpha limit,
+  (forall pi q lam, exists r, solve pi q lam = Ok r) -> (0 < cutoff)%Q ->
+  forall noise, is_some alpha = is_some noise ->
+  forall css p evs c rest fuel,
+  valid_analyze cutoff mix limit css (root p) noise evs -> (0 < limit)%nat -> noise_ok noise (root p) evs ->
+  (length css < fuel)%nat -> Forall (fun cs => (length cs < fuel)%nat) css ->
+  unused cutoff mix limit noise css (root p) evs = [] ->
+  forall ks k, n_kids (fst (analyze cutoff mix limit css (root p) noise evs)) = Some ks -> nth_error ks c = Some k ->
+  exists m st',
+    MctsGen.get_move ostate o_multinomial o_monotonic o_evaluate o_dirichlet F f_sqrt f_mul f_div_int solve C fuel
+      (search_cfg cutoff mix alpha limit) p (mkOst (flat css ++ Z.of_nat c :: rest) evs noise) = Ok (Some m, st') /\
+    In m (table (size p)) /\ Tak.move p m <> None.
+Proof. exact gen_get_move_legal. Qed.
